@@ -313,6 +313,7 @@ func runInstance(ld *Loaded, h HarnessSpec, ts TierSpec, args []int, opt *Option
 	}
 	st := &State{G: e.True, heap: map[int]*Obj{}, stamp: e.newStamp()}
 	t0 := time.Now()
+	var deadlock *Outcome
 	func() {
 		defer func() {
 			if r := recover(); r != nil {
@@ -322,7 +323,11 @@ func runInstance(ld *Loaded, h HarnessSpec, ts TierSpec, args []int, opt *Option
 				case solverError:
 					res.Status, res.Msg = "error", u.msg
 				case blockedErr:
-					res.Status, res.Msg = "unsupported", "deadlock under the run-to-completion goroutine model: "+u.why
+					// nothing can make progress under u.g: a candidate non-termination.  It is decided like an
+					// unwinding assertion (sat model -> native replay must hang); the exploration stops here, so
+					// the instance only counts when that query is sat
+					deadlock = &Outcome{g: u.g, label: "deadlock-no-goroutine-can-make-progress"}
+					res.Msg = "deadlock under the run-to-completion goroutine model: " + u.why
 				case timeoutErr:
 					res.Status, res.Msg = "timeout", fmt.Sprintf("execution exceeded %ds", tmo)
 				default:
@@ -503,6 +508,9 @@ func runInstance(ld *Loaded, h HarnessSpec, ts TierSpec, args []int, opt *Option
 				res.Queries = append(res.Queries, QueryRes{Kind: "reach", Label: a.label, Verdict: "sat"})
 			}
 		}
+		if deadlock != nil {
+			res.Queries = append(res.Queries, QueryRes{Kind: "unwind", Label: deadlock.label, Verdict: "sat"})
+		}
 		return
 	}
 	by, labels := group("assert", e.asserts)
@@ -524,6 +532,13 @@ func runInstance(ld *Loaded, h HarnessSpec, ts TierSpec, args []int, opt *Option
 	by, labels = group("unwind", e.unwinds)
 	for _, l := range labels {
 		ask("unwind", l, by[l])
+	}
+	if deadlock != nil {
+		ask("unwind", deadlock.label, deadlock.g)
+		if v := res.Queries[len(res.Queries)-1].Verdict; v != "sat" {
+			res.Status = "unsupported"
+			res.Msg += " (blocked path: " + v + "; exploration stopped there)"
+		}
 	}
 	res.SolverMs = (e.sol.tCheck).Milliseconds()
 	_ = ts0
